@@ -78,6 +78,24 @@ def extreme_archives(rnd):
         mm['size'] = MiB
         mm['data'] = data
         out.append(('pm1-endless-1MiB-%dB' % len(data), H.build(mm) + b'\0'))
+    # many members: whatever a member costs must be given back before the next one (heap stays below the constant however many
+    # members there are).  40 members per archive for every method with a large decoder state, under a generic and the Mac OS
+    # type (which wraps the decoder in the MacBinary probe), with intact, empty and cut-short compressed data.
+    for meth in (b'-lhx-', b'-lh7-', b'-lh6-', b'-lh5-', b'-pm1-', b'-pm2-', b'-lh1-', b'-lz5-'):
+        for os_t in (ord('U'), ord('m')):
+            for shape in ('empty', 'short', 'intact'):
+                ms = b''
+                for k in range(40):
+                    mm = H.simple_member(b'm%02d' % k, b'', level=1 + k % 2, method=meth, os_type=os_t)
+                    if shape == 'intact':
+                        mname = '-' + meth.decode()[1:4] + '-'
+                        packed, plain, _ = streams.small_plain_stream(rnd, mname, 200)
+                        mm = H.simple_member(b'm%02d' % k, plain, level=1 + k % 2, method=meth, os_type=os_t, packed=packed)
+                    else:
+                        mm['size'] = 200 + k
+                        mm['data'] = b'' if shape == 'empty' else bytes(rnd.randrange(256) for _ in range(3))
+                    ms += H.build(mm)
+                out.append(('many-members-%s-%s-%s' % (meth.decode(), chr(os_t), shape), ms + b'\0'))
     return out
 
 
